@@ -69,11 +69,13 @@ class ParallelGradient:
 
         # The positions at which the spline will be evaluated are always the same.
         # They can therefore be calculated in advance
+        # (for the local values of r, like bz: parallel_gradient is called
+        # with the local index)
         self._thetaVals = np.empty(
-            [eta_grid[0].size, self._nz, order+1, self._nq])
-        for i, r in enumerate(eta_grid[0]):
+            [r.size, self._nz, order+1, self._nq])
+        for i, ri in enumerate(r):
             self._getThetaVals(
-                r, self._thetaVals[i], eta_grid, constants.iota, constants.R0)
+                ri, self._thetaVals[i], eta_grid, constants.iota, constants.R0)
 
     def getCoeffsFirstDeriv(self, n: int):
         b = np.zeros(n)
